@@ -215,7 +215,7 @@ Proof.
   induction rem as [|r IH]; intros s x0 H F [Rd Rh].
   - simpl. rewrite H. destruct (finish_m_B s m x0 x0 None H F eq_refl eq_refl Rh) as [A [B _]].
     split; auto.
-  - simpl. rewrite H. destruct (m_bad x0).
+  - simpl. rewrite H. destruct (nth (m_idx x0) (m_bad x0) false).
     + eapply Bres_trans; [eapply put_m_rel; [exact H|]|eapply IH].
       * unfold mlike. cbn. auto.
       * rewrite get_m_put_m, Nat.eqb_refl, (get_m_lt _ _ _ H). reflexivity.
